@@ -122,6 +122,9 @@ pub(crate) struct StandaloneReadHandle {
     pub(crate) read_tx: Option<mpsc::Sender<ReadCmd>>,
     /// Raft command channel for the cmd_tx fallback path.
     pub(crate) cmd_tx: mpsc::Sender<d_engine_core::ClientCmd>,
+    /// Server default policy, enforced when clients may not override it
+    /// (`read_consistency.allow_client_override = false`). `None` = overrides allowed.
+    pub(crate) enforced_policy: Option<ReadConsistencyPolicy>,
 }
 
 impl StandaloneReadHandle {
@@ -130,7 +133,22 @@ impl StandaloneReadHandle {
         read_tx: Option<mpsc::Sender<ReadCmd>>,
         cmd_tx: mpsc::Sender<d_engine_core::ClientCmd>,
     ) -> Self {
-        Self { read_tx, cmd_tx }
+        Self {
+            read_tx,
+            cmd_tx,
+            enforced_policy: None,
+        }
+    }
+
+    /// Apply the server's read configuration: when client overrides are disallowed every read is
+    /// routed under `default_policy`, whatever policy the request carries.
+    pub(crate) fn with_read_config(
+        mut self,
+        default_policy: ReadConsistencyPolicy,
+        allow_client_override: bool,
+    ) -> Self {
+        self.enforced_policy = (!allow_client_override).then_some(default_policy);
+        self
     }
 
     /// Route a single-key read. Convenience wrapper around [`Self::get_batch`].
@@ -171,6 +189,9 @@ impl StandaloneReadHandle {
         client_id: u32,
         timeout: Duration,
     ) -> ClientApiResult<Vec<Option<Bytes>>> {
+        // Overrides disallowed: the fast path must not serve a weaker policy than the server default.
+        let consistency = self.enforced_policy.clone().unwrap_or(consistency);
+
         // Fast path: Eventual and LeaseRead bypass cmd_tx via ReadActor.
         if let Some(read_tx) = &self.read_tx
             && matches!(
